@@ -247,12 +247,12 @@ class AbstractFieldFormat(object):
         :raises cutplace.errors.FieldValueError: if ``value`` is invalid
         """
         if self.data_format.format == data.FORMAT_FIXED:
-            possibly_stripped_value = value.strip()
+            # NOTE: Only blanks pad a fixed value, other white space such as tabs is part of the value.
+            possibly_stripped_value = value.strip(" ")
         else:
             possibly_stripped_value = value
-        if possibly_stripped_value or (value.strip(" ") != ""):
+        if possibly_stripped_value:
             # NOTE: A fixed value consisting only of blanks is empty, even if blanks are no allowed characters.
-            # Other white space characters still have to be allowed characters.
             self.validate_characters(value)
         self.validate_empty(possibly_stripped_value)
         self.validate_length(value)
